@@ -226,8 +226,11 @@ PROPS["C15"] = dict(
     verus=[dict(name="logging", template="contracts/C15/logging.vrs",
                 expect=["ExtractionRule<P>::execute", "LogConfig<P>::execute", "<Logger as Component<P>>::execute"])],
     kani=[dict(files=["contracts/C15/c15.rs"])],
-    min_obligations={"quick": 4, "thorough": 4},
-    uncovered=["compressed export kernel CompressedLog::from (CBMC does not finish even on one concrete two-step log: 10 min / 22 GB; Verus rejects its &mut-capturing closure) - harness kept in contracts/attic/",
+    native=[dict(files=[], inject=[dict(file="contracts/C15/c15_native.rs", into="src/logging/log.rs")],
+                 harnesses={"c15_native_compressed_enumeration": dict(anchor="CompressedLog::from",
+                            bound="BOUNDED STAND-IN, native exhaustive enumeration: all logs of <= 3 steps x <= 3 distinct names out of 4 (68921 logs)")})],
+    min_obligations={"quick": 5, "thorough": 5},
+    uncovered=["compressed export kernel CompressedLog::from is only covered by a BOUNDED native enumeration (CBMC does not finish even on one concrete two-step log: 10 min / 22 GB; Verus rejects its &mut-capturing closure; Kani harness kept in contracts/attic/)",
                "JSON/CBOR/RON serialisation and decoding", "every template serialises / distinct configurations serialise differently"],
 )
 
@@ -253,7 +256,10 @@ PROPS["C17"] = dict(
     verus=[dict(name="acceptance", template="contracts/C17/acceptance.vrs",
                 expect=["<ExponentialAnnealingAcceptance as Component<P>>::execute"])],
     kani=[dict(files=["contracts/C17/c17.rs"])],
-    min_obligations={"quick": 26, "thorough": 26},
+    native=[dict(files=["contracts/C17/c17_native.rs"],
+                 harnesses={"c17_native_metropolis_grid": dict(anchor="ExponentialAnnealingAcceptance::execute",
+                            bound="BOUNDED STAND-IN, native grid: 8x8 objective pairs (incl. equal, +inf) x 5 temperatures x 25 seeds x {2,3} populations")})],
+    min_obligations={"quick": 27, "thorough": 27},
     uncovered=["the acceptance probability itself (statistical) and 'equally good is always accepted' (needs exp(0) = 1 > u: floats are uninterpreted in Verus)",
                "mapping() driver applying the cooling through lenses"],
     assumptions=["float operations are defined (vstd sub_req/div_req lifted into the precondition)"],
